@@ -43,6 +43,7 @@ type HarnessCfg struct {
 	Quick    *TierCfg          `json:"quick"`
 	Thorough *TierCfg          `json:"thorough"`
 	Stubs    map[string]string `json:"stubs"`
+	Also     []string          `json:"also_props"`
 }
 
 type PropCfg struct {
@@ -168,7 +169,7 @@ func main() {
 						solvers[0].Log = f
 					}
 				}
-				ro := sym.RunOpts{Prop: *prop, GoPolicy: tc.GoPolicy, Rounds: tc.Rounds, TimeoutMs: tc.TimeoutMs, CrossCheck: tc.CrossCheck}
+				ro := sym.RunOpts{AlsoProps: j.h.Also, Prop: *prop, GoPolicy: tc.GoPolicy, Rounds: tc.Rounds, TimeoutMs: tc.TimeoutMs, CrossCheck: tc.CrossCheck}
 				if ro.TimeoutMs == 0 {
 					ro.TimeoutMs = 120000
 				}
@@ -275,6 +276,8 @@ func main() {
 	solverSec, execSec := 0.0, 0.0
 	obl, dis, cov, covSat, unw := 0, 0, 0, 0, 0
 	nontrivial := 0
+	ncasesOK := 0
+	folded := 0
 	perHarness := map[string]map[string]interface{}{}
 	knownPrinted := map[string]bool{}
 	var lines []string
@@ -303,8 +306,10 @@ func main() {
 		covSat += r.CoversSat
 		unw += r.Unwinds
 		if r.Verdict == "pass" && r.Covers > 0 && r.CoversSat == r.Covers {
-			nontrivial++
+			nontrivial += r.CoversSat
+			ncasesOK++
 		}
+		folded += r.Folded
 		ph := perHarness[r.Harness]
 		if ph == nil {
 			ph = map[string]interface{}{"cases": 0, "pass": 0, "events_per_thread_max": []int{}, "rounds": r.Rounds}
@@ -413,9 +418,11 @@ func main() {
 			"wall_s": wall, "violations": nviol,
 			"assumptions": append(append([]string{"sequential consistency for all shared accesses", "go/ssa (x/tools v0.29.0) reflects the compiled code", "SMT solvers z3 4.8.12 / cvc5 1.0 are sound"}, pc.Assumptions...), sl...),
 			"coverage": map[string]interface{}{
-				"evaluations":             queries["sat"] + queries["unsat"],
-				"distinct_nontrivial":     nontrivial,
-				"rule":                    "one evaluation = one SMT query with a definite answer over the symbolic encoding of the harness (all inputs/schedules within the bounds at once); a case = one (harness, shape assignment); it counts as non-trivial when it passed and every reachability witness (vfCover) of the case was satisfiable",
+				"evaluations":                     queries["sat"] + queries["unsat"],
+				"distinct_nontrivial":             nontrivial,
+				"rule":                            "one evaluation = one query with a definite answer over the symbolic encoding of a harness case (all inputs/schedules within the bounds at once; queries whose terms folded to constants are answered by the simplifier and counted as by:constant-folding); a case = one (harness, shape assignment); distinct_nontrivial counts the distinct reachability witnesses (harness, shape, vfCover id) that were satisfiable in cases that passed with all their witnesses reachable",
+				"cases_passed_with_all_witnesses": ncasesOK,
+				"obligations_decided_by_constant_folding": folded,
 				"samples":                 samples,
 				"explanation":             "bounded symbolic execution of the real functions from go/ssa; unsat = holds for every input/schedule within the stated bounds",
 				"harness_cases":           len(results),
